@@ -99,3 +99,13 @@ fn int_lit() {
   kani::cover!(grammar_int(s) && b[0] == b'-' && spec_int(s).is_none(), "negative overflow reachable");
   parse_int_lit(s);
 }
+
+// ---- cross-check of the two core contracts the Verus unit U3 assumes (complete: all 256 bytes) ----
+#[kani::proof]
+fn ascii_class_specs_match_core() {
+  let b: u8 = kani::any();
+  let ws = b == 0x20 || b == 0x09 || b == 0x0a || b == 0x0c || b == 0x0d;
+  let alnum = (0x30..=0x39).contains(&b) || (0x41..=0x5a).contains(&b) || (0x61..=0x7a).contains(&b);
+  assert!(b.is_ascii_whitespace() == ws);
+  assert!(b.is_ascii_alphanumeric() == alnum);
+}
